@@ -43,15 +43,17 @@ def hexOfNatAux : Nat → Nat → Bytes → Bytes
   | fuel + 1, n, acc => if n = 0 then acc else hexOfNatAux fuel (n / 16) (hexDigitUpper (n % 16) :: acc)
 def hexOfNat (n : Nat) : Bytes := if n = 0 then [48] else hexOfNatAux (n + 1) n []
 
+/-- optional sign of `big.Int.SetString` -/
+def splitSign : Bytes → Bool × Bytes
+  | 43 :: r => (false, r)
+  | 45 :: r => (true, r)
+  | s => (false, s)
+
 /-- `new(big.Int).SetString(s, 10)`: optional sign, at least one digit, digits only.  Returns (negative?, magnitude). -/
 def bigSetString (s : Bytes) : Option (Bool × Nat) :=
-  let (neg, ds) : Bool × Bytes :=
-    match s with
-    | 43 :: r => (false, r)
-    | 45 :: r => (true, r)
-    | _ => (false, s)
-  if ds.isEmpty then none
-  else if ds.all isDigitChar then some (neg ∧ decValue ds ≠ 0, decValue ds)
+  let p := splitSign s
+  if p.2.isEmpty then none
+  else if p.2.all isDigitChar then some (p.1 && decide (decValue p.2 ≠ 0), decValue p.2)
   else none
 
 /-! ### utils.go -/
